@@ -11,7 +11,8 @@ literals of the code (`OfScientific`).
 Proved: concatenate/split round trip; bound expansion; write-back; the approximation reproduces value and gradient (both
 versions); the asymptotes/bounds enclosure and move inequalities; every Newton iterate of `subsolv` (hence the returned
 point) is strictly interior with positive multipliers and slacks; hence bounds and move limit of the new design; the exit
-condition of `subsolv` (partial).
+condition of `subsolv` (partial: Newton cap not hit), also block by block in terms of the requested accuracy
+(`subsolv_exit_kkt_blocks`: stationarity and constraint rows ≤ 9·epsimin, complementarity products in (0, 19·epsimin]).
 NOT proved: convergence of the MMA iterates to the optimum on convex problems and feasibility at the end — this is an
 asymptotic statement that is not a theorem for MMA without the GCMMA safeguards; it is observed by the harness only.
 `m = 0` (no constraint) is outside the property.
@@ -235,6 +236,54 @@ theorem subsolv_exit_kkt_partial (sqrt : α → α) (linsolve : Nat → (Nat →
     have := mem_le_maxAbsL _ r hr
     rw [← h3] at this
     exact le_trans this (h4.resolve_right hcap)
+
+/-- an entry of a tabulated block is an entry of the concatenated residual vector -/
+private theorem mem_tab {β : Type} (n : Nat) (f : Nat → β) (j : Nat) (hj : j < n) : f j ∈ tab n f := by
+  unfold tab; exact List.mem_map.mpr ⟨j, List.mem_range.mpr hj, rfl⟩
+
+/-- **exit condition of `subsolv`, block by block, in terms of the requested accuracy `epsimin`** (same hypotheses as
+    `subsolv_exit_kkt_partial`, `epsimin ≥ 0`): at the returned point the stationarity rows (`rex`, `rey`, `rez`) and the
+    constraint rows (`relam`) of the sub-problem's KKT system are at most `9·epsimin` in absolute value, and every
+    complementarity product (`ξⱼ(xⱼ−αⱼ)`, `ηⱼ(βⱼ−xⱼ)`, `μᵢyᵢ`, `ζz`, `λᵢsᵢ`) is positive and at most `19·epsimin`: the passage
+    from the `epsi`-perturbed rows to the unperturbed optimality conditions.  Still assumed: the Newton cap is not hit. -/
+theorem subsolv_exit_kkt_blocks (sqrt : α → α) (linsolve : Nat → (Nat → Nat → α) → (Nat → α) → Option (Nat → α))
+    (pb : SubProb α) (x0 : Option (Nat → α)) (fuel : Nat) (out : SubOut α)
+    (hs : subsolv sqrt linsolve pb x0 fuel = .ok out) (hran : out.outer ≠ 0) (hcap : out.itttLast ≠ 400)
+    (he : 0 ≤ pb.epsimin) :
+    (∀ j, j < pb.n → |(residualBlocks pb out.epsiLast out.p).rex j| ≤ 9 * pb.epsimin) ∧
+    (∀ i, i < pb.m → |(residualBlocks pb out.epsiLast out.p).rey i| ≤ 9 * pb.epsimin) ∧
+    |(residualBlocks pb out.epsiLast out.p).rez| ≤ 9 * pb.epsimin ∧
+    (∀ i, i < pb.m → |(residualBlocks pb out.epsiLast out.p).relam i| ≤ 9 * pb.epsimin) ∧
+    (∀ j, j < pb.n → 0 < ofArr out.p.xsi j * (ofArr out.p.x j - pb.alfa j) ∧
+        ofArr out.p.xsi j * (ofArr out.p.x j - pb.alfa j) ≤ 19 * pb.epsimin) ∧
+    (∀ j, j < pb.n → 0 < ofArr out.p.eta j * (pb.beta j - ofArr out.p.x j) ∧
+        ofArr out.p.eta j * (pb.beta j - ofArr out.p.x j) ≤ 19 * pb.epsimin) ∧
+    (∀ i, i < pb.m → 0 < ofArr out.p.mu i * ofArr out.p.y i ∧ ofArr out.p.mu i * ofArr out.p.y i ≤ 19 * pb.epsimin) ∧
+    (0 < out.p.zet * out.p.z ∧ out.p.zet * out.p.z ≤ 19 * pb.epsimin) ∧
+    (∀ i, i < pb.m → 0 < ofArr out.p.lam i * ofArr out.p.s i ∧ ofArr out.p.lam i * ofArr out.p.s i ≤ 19 * pb.epsimin) := by
+  obtain ⟨hall, hlo, hhi⟩ := subsolv_exit_kkt_partial sqrt linsolve pb x0 fuel out hs hran hcap
+  have h9 : (0.9 : α) = 9 / 10 := by norm_num
+  have hepos : 0 < out.epsiLast := lt_of_le_of_lt he hlo
+  have hmem : ∀ r, r ∈ residual pb out.epsiLast out.p → |r| ≤ 9 / 10 * out.epsiLast := by
+    intro r hr; have := hall r hr; rwa [h9] at this
+  have small : ∀ r, r ∈ residual pb out.epsiLast out.p → |r| ≤ 9 * pb.epsimin := by
+    intro r hr; have := hmem r hr; linarith
+  have compl : ∀ q, q - out.epsiLast ∈ residual pb out.epsiLast out.p → 0 < q ∧ q ≤ 19 * pb.epsimin := by
+    intro q hq
+    have := abs_le.mp (hmem _ hq)
+    constructor <;> linarith [this.1, this.2]
+  refine ⟨fun j hj => small _ ?_, fun i hi => small _ ?_, small _ ?_, fun i hi => small _ ?_, fun j hj => compl _ ?_,
+    fun j hj => compl _ ?_, fun i hi => compl _ ?_, compl _ ?_, fun i hi => compl _ ?_⟩
+  all_goals (unfold residual; simp only [List.mem_append, List.mem_singleton])
+  · exact Or.inl (Or.inl (Or.inl (Or.inl (Or.inl (Or.inl (Or.inl (Or.inl (mem_tab _ _ j hj))))))))
+  · exact Or.inl (Or.inl (Or.inl (Or.inl (Or.inl (Or.inl (Or.inl (Or.inr (mem_tab _ _ i hi))))))))
+  · exact Or.inl (Or.inl (Or.inl (Or.inl (Or.inl (Or.inl (Or.inr trivial))))))
+  · exact Or.inl (Or.inl (Or.inl (Or.inl (Or.inl (Or.inr (mem_tab _ _ i hi))))))
+  · exact Or.inl (Or.inl (Or.inl (Or.inl (Or.inr (mem_tab _ (residualBlocks pb out.epsiLast out.p).rexsi j hj)))))
+  · exact Or.inl (Or.inl (Or.inl (Or.inr (mem_tab _ (residualBlocks pb out.epsiLast out.p).reeta j hj))))
+  · exact Or.inl (Or.inl (Or.inr (mem_tab _ (residualBlocks pb out.epsiLast out.p).remu i hi)))
+  · exact Or.inl (Or.inr rfl)
+  · exact Or.inr (mem_tab _ (residualBlocks pb out.epsiLast out.p).res i hi)
 
 /-- non-vacuity: a complete `subsolv` run over ℚ (`n = m = 1`, `epsimin = 1/2`, exact Gaussian elimination, `sqrt := id`)
     returns normally after one outer pass with 4 Newton passes (each of them an instance of `subsolv_interior_invariant`),
